@@ -120,6 +120,7 @@ type Obligation struct {
 }
 
 type Exec struct {
+	modScanning map[*ssa.Function]bool // bodies being scanned by callModifies (recursion guard)
 	L      *Loaded
 	db     *ContractDB
 	so     *Sorts
@@ -1071,6 +1072,14 @@ func (x *Exec) callModifies(c *ssa.CallCommon, mods map[string]bool) bool {
 		}
 	}
 	if inlineHere {
+		if x.modScanning[callee] {
+			return false
+		}
+		if x.modScanning == nil {
+			x.modScanning = map[*ssa.Function]bool{}
+		}
+		x.modScanning[callee] = true
+		defer delete(x.modScanning, callee)
 		all := false
 		for _, b := range callee.Blocks {
 			for _, in := range b.Instrs {
@@ -1107,6 +1116,14 @@ func (x *Exec) callModifies(c *ssa.CallCommon, mods map[string]bool) bool {
 	}
 	// inlined: scan body
 	if callee.Blocks != nil && x.inlinable(callee) {
+		if x.modScanning[callee] {
+			return false // a recursive call adds nothing to the union the enclosing scan of this body collects
+		}
+		if x.modScanning == nil {
+			x.modScanning = map[*ssa.Function]bool{}
+		}
+		x.modScanning[callee] = true
+		defer delete(x.modScanning, callee)
 		all := false
 		for _, b := range callee.Blocks {
 			for _, in := range b.Instrs {
